@@ -262,7 +262,14 @@ func zzPoolBegin(p *pgxpool.Pool, ctx context.Context) (pgx.Tx, error) {
 
 // zzPoolExec: a statement issued on the pool itself runs in its own
 // session and commits immediately.
+// ZZPoolExecHook: a harness of another package (the dashboard's) records the
+// statements its handlers issue on the pool instead of running them.
+var ZZPoolExecHook func(sql string, args []any) error
+
 func zzPoolExec(p *pgxpool.Pool, ctx context.Context, sql string, args ...any) (pgconn.CommandTag, error) {
+	if ZZPoolExecHook != nil {
+		return pgconn.CommandTag{}, ZZPoolExecHook(sql, args)
+	}
 	if zzParseSQL(sql).kind == "set" {
 		zzSQLLog = append(zzSQLLog, sql)
 		return pgconn.CommandTag{}, nil
